@@ -212,7 +212,7 @@ func TestVerifC07Sequential(t *testing.T) {
 		nruns := rapid.IntRange(1, 4).Draw(t, "nruns")
 		s := start
 		var hist []string
-		leftAlone, multi := false, false
+		leftAlone, multi, keptCounting := false, false, false
 		for i := 0; i < nruns; i++ {
 			mode := rapid.SampledFrom([]string{"on 2000-01-01", "local", "on", "local 2001-02-03"}).Draw(t, "mode")
 			vuSetMode(dir, mode)
@@ -228,6 +228,50 @@ func TestVerifC07Sequential(t *testing.T) {
 			m.step(s)
 			hist = append(hist, fmt.Sprintf("run(%s,%s)->%d new weeks", strings.Fields(mode)[0], s.Format(time.RFC3339), len(m.local)-before))
 			c07CheckDir(t, dir, m, files, fmt.Sprintf("after run %d (mode %s, start %s)", i, mode, s.Format(time.RFC3339)))
+			// Between two runs the programs that own the still active files keep counting: values change in place
+			// (through the shared mapping: same size, and the modification time need not change). A later run that
+			// finds such a file expired reports what the file holds then.
+			if i < nruns-1 {
+				var names []string
+				for name, f := range m.files {
+					if f.Kind == "ok" && !f.End.Before(s) && len(f.Counts) > 0 {
+						names = append(names, name)
+					}
+				}
+				sort.Strings(names)
+				for _, name := range names {
+					if rapid.IntRange(0, 1).Draw(t, "keepsCounting") == 0 {
+						continue
+					}
+					f := m.files[name]
+					var keys []string
+					for k := range f.Counts {
+						keys = append(keys, k)
+					}
+					sort.Strings(keys)
+					k := keys[rapid.IntRange(0, len(keys)-1).Draw(t, "whichCounter")]
+					if f.Counts[k] > 1<<40 {
+						continue
+					}
+					f.Counts[k] += uint64(rapid.IntRange(1, 40).Draw(t, "more"))
+					nb := vgen.EncodeCountFile(f)
+					if len(nb) != len(f.Bytes) {
+						t.Fatalf("harness: re-encoding %s changed its size", name)
+					}
+					f.Bytes = nb
+					p := filepath.Join(dir, "local", name)
+					st, err := os.Stat(p)
+					if err != nil {
+						t.Fatalf("harness: %v", err)
+					}
+					if fh, err := os.OpenFile(p, os.O_WRONLY, 0); err == nil {
+						fh.WriteAt(nb, 0)
+						fh.Close()
+					}
+					os.Chtimes(p, st.ModTime(), st.ModTime())
+					keptCounting = true
+				}
+			}
 		}
 		if len(m.files) > 0 {
 			leftAlone = true
@@ -238,6 +282,6 @@ func TestVerifC07Sequential(t *testing.T) {
 			}
 		}
 		vstats.Case(fmt.Sprintf("files{%s} pre=%v history=%v", vuDescribeFiles(files), pre, hist), multi && leftAlone,
-			fmt.Sprintf("multi:%v", multi), fmt.Sprintf("leftAlone:%v", leftAlone), fmt.Sprintf("runs:%d", nruns), fmt.Sprintf("reportsBuilt:%d", min(len(m.local), 3)))
+			fmt.Sprintf("multi:%v", multi), fmt.Sprintf("leftAlone:%v", leftAlone), fmt.Sprintf("runs:%d", nruns), fmt.Sprintf("reportsBuilt:%d", min(len(m.local), 3)), fmt.Sprintf("activeFilesKeptCounting:%v", keptCounting))
 	})
 }
